@@ -7,13 +7,41 @@ Tr == ndJsonDeserialize(IOEnv.TRACE)
 VARIABLE l
 Expected(e) == Render(e.meta.ast, e.meta.doc, <<>>)
 Judgeable(x) == \A i \in 1..Len(x) : x[i] # -999
+\* A node the specification does not judge (an expression outside QExpr's exact domain, an inline-if case without value)
+\* leaves the marker -999 in the expected text: it stands for ANY text there; everything around it is still demanded.
+RECURSIVE Segments(_, _, _)
+Segments(x, i, acc) == IF i > Len(x) THEN << acc >>
+                       ELSE IF x[i] = -999 THEN << acc >> \o Segments(x, i + 1, <<>>)
+                       ELSE Segments(x, i + 1, Append(acc, x[i]))
+\* leftmost position >= from where seg occurs in out and ends at or before limit (0 = none)
+FindFrom(out, seg, from, limit) ==
+    IF Len(seg) = 0 THEN (IF from <= limit + 1 THEN from ELSE 0)
+    ELSE LET C == {i \in from..(limit - Len(seg) + 1) : out[i] = seg[1] /\ SubSeq(out, i, i + Len(seg) - 1) = seg} IN
+         IF C = {} THEN 0 ELSE CHOOSE i \in C : \A j \in C : i <= j
+RECURSIVE Middle(_, _, _, _, _)
+Middle(out, segs, k, from, limit) ==          \* segs[k .. Len(segs)-1] occur in this order inside out[from .. limit]
+    IF k >= Len(segs) THEN TRUE
+    ELSE \E p \in {FindFrom(out, segs[k], from, limit)} :            \* (bound once: TLC would re-evaluate a LET at every use, 2^k searches)
+             p # 0 /\ Middle(out, segs, k + 1, p + Len(segs[k]), limit)
+MatchWild(out, x) ==
+    LET segs == Segments(x, 1, <<>>)  n == Len(segs) IN
+    IF n = 1 THEN out = x
+    ELSE /\ Len(segs[1]) + Len(segs[n]) <= Len(out)
+         /\ SubSeq(out, 1, Len(segs[1])) = segs[1]
+         /\ SubSeq(out, Len(out) - Len(segs[n]) + 1, Len(out)) = segs[n]
+         /\ Middle(out, segs, 2, Len(segs[1]) + 1, Len(out) - Len(segs[n]))
+\* matching with wildcards is quadratic: an expected text with hundreds of unjudged nodes (nested loops over the root) is only
+\* reported as skipped
+Markers(x) == Cardinality({i \in 1..Len(x) : x[i] = -999})
+TooBig(x) == ~Judgeable(x) /\ (Len(x) > 20000 \/ Markers(x) > 120)
 EventOK(e) == LET x == Expected(e) IN
               /\ e.prefix = 1 /\ e.wsame = 1 /\ e.vsame = 1        \* stream only appended to; same for every width; value untouched; second render identical
-              /\ Judgeable(x) => e.out = x
+              /\ (TooBig(x) \/ MatchWild(e.out, x))
 NB == 64
 BSize == (Len(Tr) + NB - 1) \div NB
 OInit == l = 0
 ONext == \/ l = 0 /\ l' \in {0 - b : b \in 1..NB}
          \/ l < 0 /\ l' \in {i \in (((0 - l) - 1) * BSize + 1)..((0 - l) * BSize) : i <= Len(Tr)}
-Check == l <= 0 \/ EventOK(Tr[l]) \/ PrintT(<<"MISMATCH", l, Expected(Tr[l])>>)
+Check == /\ (l <= 0 \/ EventOK(Tr[l]) \/ PrintT(<<"MISMATCH", l, Expected(Tr[l])>>))
+         /\ (l <= 0 \/ Judgeable(Expected(Tr[l])) \/ PrintT(<<IF TooBig(Expected(Tr[l])) THEN "SKIPPED" ELSE "PARTIAL", l>>))
 =============================================================================
